@@ -650,6 +650,10 @@ static void check_c11(const TypeOps& t) {
   std::vector<Op> ops;
   for (size_t v = 0; v < vals.size(); v++) ops.push_back({'A', v, 0});
   for (size_t v = 0; v < vals.size(); v++) ops.push_back({'R', v, 0});
+  // the same read through every library reader (the fd reader delivers at most 3 bytes per system call, so a block payload
+  // arrives in pieces): what ends up in a used object must not depend on the reader either
+  for (size_t v = 0; v < vals.size(); v++)
+    for (size_t j = 0; j < t.readers.size(); j++) ops.push_back({'L', v, j});
   for (size_t v = 0; v < vals.size(); v++) {
     Obj d(t);
     ProbeReader pr(encs[v].data(), encs[v].size());
@@ -657,7 +661,7 @@ static void check_c11(const TypeOps& t) {
     for (size_t k = 0; k < pr.log.size(); k++) ops.push_back({'F', v, k});
     for (size_t k = 0; k < encs[v].size(); k++) ops.push_back({'T', v, k});
   }
-  auto opname = [&](const Op& o) { return std::string(1, o.kind) + std::to_string(o.v) + (o.kind == 'F' || o.kind == 'T' ? "@" + std::to_string(o.k) : ""); };
+  auto opname = [&](const Op& o) { return std::string(1, o.kind) + std::to_string(o.v) + (o.kind == 'F' || o.kind == 'T' ? "@" + std::to_string(o.k) : o.kind == 'L' ? "/" + t.readers[o.k].name : ""); };
   // apply one op to a live object; returns false on a property violation (already reported)
   auto apply = [&](Obj& obj, const Op& o, const std::string& hist, bool report) -> bool {
     if (o.kind == 'A') { t.from_val(vals[o.v], obj.p); return true; }
@@ -671,6 +675,21 @@ static void check_c11(const TypeOps& t) {
           R.viol("C11|stale-state|" + shape(t.sch) + tags(t.sch), "C11|" + t.name + "|" + hist + opname(o),
                  e ? std::string("read into a used object failed with ") + ename(e)
                    : "reading into an object with prior contents gives " + vjson(t.sch, got) + ", a fresh object gives " + vjson(t.sch, norms[o.v]),
+                 "{\"type\":" + jstr(t.name) + ",\"history\":" + jstr(hist + opname(o)) + "}");
+        return false;
+      }
+      return true;
+    }
+    if (o.kind == 'L') {
+      void* dp[1] = {obj.p};
+      RIn in = t.readers[o.k].run(encs[o.v].data(), encs[o.v].size(), dp, 1);
+      Val got = obj.val();
+      normalize(t.sch, got);
+      if (in.err || got != norms[o.v] || in.consumed != encs[o.v].size()) {
+        if (report)
+          R.viol("C11|stale-state|" + t.readers[o.k].name + "|" + shape(t.sch) + tags(t.sch), "C11|" + t.name + "|" + hist + opname(o),
+                 in.err ? std::string("read into a used object failed with ") + ename(in.err)
+                        : "reading through " + t.readers[o.k].name + " into an object with prior contents gives " + vjson(t.sch, got) + ", a fresh object gives " + vjson(t.sch, norms[o.v]),
                  "{\"type\":" + jstr(t.name) + ",\"history\":" + jstr(hist + opname(o)) + "}");
         return false;
       }
